@@ -47,6 +47,16 @@ pub open spec fn cfg_block_at(subs: Map<Tid, Term<Sub>>, k: Tid, i: int, b: Term
     subs.contains_key(k) && 0 <= i < subs[k].term.blocks@.len() && subs[k].term.blocks@[i] == b
 }
 
+/// `b` is a block of the program
+pub open spec fn cfg_prog_block(subs: Map<Tid, Term<Sub>>, b: Term<Blk>) -> bool {
+    exists |k: Tid, i: int| #[trigger] cfg_block_at(subs, k, i, b)
+}
+
+/// `f` is a function of the program
+pub open spec fn cfg_prog_sub(subs: Map<Tid, Term<Sub>>, f: Term<Sub>) -> bool {
+    exists |k: Tid| #[trigger] subs.contains_key(k) && subs[k] == f
+}
+
 /// some block of the program has this tid
 pub open spec fn cfg_has_block(subs: Map<Tid, Term<Sub>>, tid: Tid) -> bool {
     exists |k: Tid, i: int| #[trigger] cfg_block_at(subs, k, i, subs[k].term.blocks@[i]) && subs[k].term.blocks@[i].tid == tid
@@ -59,7 +69,7 @@ pub uninterp spec fn cfg_find_block<'a>(subs: Map<Tid, Term<Sub>>, tid: Tid) -> 
 
 pub open spec fn cfg_find_block_ok<'a>(subs: Map<Tid, Term<Sub>>, tid: Tid, r: Option<&'a Term<Blk>>) -> bool {
     &&& r is Some <==> cfg_has_block(subs, tid)
-    &&& r is Some ==> r->Some_0.tid == tid && exists |k: Tid, i: int| #[trigger] cfg_block_at(subs, k, i, *r->Some_0)
+    &&& r is Some ==> r->Some_0.tid == tid && cfg_prog_block(subs, *r->Some_0)
 }
 
 // ---- nodes -------------------------------------------------------------------------------------------------------------
@@ -329,7 +339,6 @@ pub open spec fn cfg_entry_ok<'a>(nodes: Seq<Node<'a>>, subs: Map<Tid, Term<Sub>
     &&& cfg_sub(nodes[v.0.i as int]).tid == f
     &&& cfg_sub(nodes[v.0.i as int]).term.blocks@.len() > 0
     &&& cfg_sub(nodes[v.0.i as int]).term.blocks@[0] == *cfg_blk(nodes[v.0.i as int])
-    &&& exists |k: Tid| #[trigger] subs.contains_key(k) && subs[k] == *cfg_sub(nodes[v.0.i as int])
 }
 
 /// `v` = (CallSource node of a block that contains a direct call, existing return-to node)
@@ -347,6 +356,12 @@ pub open spec fn cfg_inv<'a>(st: CfgSt<'a>, subs: Map<Tid, Term<Sub>>) -> bool {
     &&& forall |i: int| 0 <= i < st.wl.len() ==> (#[trigger] st.wl[i]).i < st.nodes.len() && st.nodes[st.wl[i].i as int] is BlkEnd
     &&& forall |e: int| 0 <= e < st.edges.len() ==> (#[trigger] st.edges[e]).src.i < st.nodes.len() && st.edges[e].dst.i < st.nodes.len()
     &&& forall |f: Tid, i: int| st.ra.contains_key(f) && 0 <= i < st.ra[f].len() ==> cfg_ret_ok(st.nodes, #[trigger] st.ra[f][i])
+    &&& forall |n: int| 0 <= n < st.nodes.len() ==> cfg_node_ok(subs, #[trigger] st.nodes[n])
+}
+
+/// a BlkStart / BlkEnd node stands for a block of the program, in a function of the program
+pub open spec fn cfg_node_ok<'a>(subs: Map<Tid, Term<Sub>>, w: Node<'a>) -> bool {
+    (w is BlkStart || w is BlkEnd) ==> cfg_prog_block(subs, *cfg_blk(w)) && cfg_prog_sub(subs, *cfg_sub(w))
 }
 
 /// the invariant on the builder itself
@@ -397,4 +412,288 @@ pub open spec fn cfg_jump_wf(subs: Map<Tid, Term<Sub>>, b: Term<Blk>, jump: Term
 pub open spec fn cfg_block_wf(subs: Map<Tid, Term<Sub>>, b: Term<Blk>) -> bool {
     &&& b.term.jmps@.len() <= 2
     &&& forall |j: int| 0 <= j < b.term.jmps@.len() ==> cfg_jump_targets_exist(subs, b, #[trigger] b.term.jmps@[j])
+}
+
+// ---- STAGE 2: the driver loops -------------------------------------------------------------------------------------------
+
+/// the keys of an iteration over `subs` (ghost sequence of BTreeMap::iter), in iteration order
+pub open spec fn cfg_keys(s: Seq<(&Tid, &Term<Sub>)>) -> Seq<Tid> {
+    Seq::new(s.len(), |i: int| *s[i].0)
+}
+
+/// `ks` lists every key of `subs` exactly once (the builder visits the functions in the order of BTreeMap::values; the
+/// property does not depend on the order, so only this is stated)
+pub open spec fn cfg_key_order(ks: Seq<Tid>, subs: Map<Tid, Term<Sub>>) -> bool {
+    &&& forall |i: int, j: int| 0 <= i < j < ks.len() ==> ks[i] != ks[j]
+    &&& forall |i: int| 0 <= i < ks.len() ==> subs.contains_key(#[trigger] ks[i])
+    &&& forall |k: Tid| subs.contains_key(k) ==> exists |i: int| 0 <= i < ks.len() && #[trigger] ks[i] == k
+}
+
+/// add_block for the first `n` blocks of function `f`
+pub open spec fn cfg_sub_blocks_n<'a>(st: CfgSt<'a>, f: &'a Term<Sub>, n: int) -> CfgSt<'a>
+    decreases n
+{
+    if n <= 0 { st } else { cfg_add_block(cfg_sub_blocks_n(st, f, n - 1), &f.term.blocks@[n - 1], f) }
+}
+
+/// add_program_blocks after the first `n` functions of the order `ks`: one add_block per (block, function it is listed in)
+pub open spec fn cfg_prog_blocks_n<'a>(st: CfgSt<'a>, subs: Map<Tid, Term<Sub>>, ks: Seq<Tid>, n: int) -> CfgSt<'a>
+    decreases n
+{
+    if n <= 0 { st } else {
+        cfg_sub_blocks_n(cfg_prog_blocks_n(st, subs, ks, n - 1), &subs[ks[n - 1]], subs[ks[n - 1]].term.blocks@.len() as int)
+    }
+}
+
+/// postcondition of add_program_blocks
+pub open spec fn cfg_prog_blocks_post<'a>(st0: CfgSt<'a>, st1: CfgSt<'a>, subs: Map<Tid, Term<Sub>>) -> bool {
+    exists |ks: Seq<Tid>| #[trigger] cfg_key_order(ks, subs) && st1 == cfg_prog_blocks_n(st0, subs, ks, ks.len() as int)
+}
+
+/// the pair (block `b`, function `f`) is registered and its node pair carries exactly this block and this function
+pub open spec fn cfg_registered<'a>(st: CfgSt<'a>, b: Term<Blk>, f: Term<Sub>) -> bool {
+    &&& st.jt.contains_key((b.tid, f.tid))
+    &&& st.jt[(b.tid, f.tid)].0.i < st.nodes.len()
+    &&& *cfg_blk(st.nodes[st.jt[(b.tid, f.tid)].0.i as int]) == b
+    &&& *cfg_sub(st.nodes[st.jt[(b.tid, f.tid)].0.i as int]) == f
+}
+
+/// precondition of add_subs_to_call_targets: the first block of every function is registered (add_program_blocks did it)
+pub open spec fn cfg_firsts_registered<'a>(st: CfgSt<'a>, subs: Map<Tid, Term<Sub>>) -> bool {
+    forall |k: Tid| #[trigger] subs.contains_key(k) && subs[k].term.blocks@.len() > 0 ==> cfg_registered(st, subs[k].term.blocks@[0], subs[k])
+}
+
+/// WELL-FORMED PROGRAM: a tid identifies a function -- two functions of the program with the same tid are the same
+pub open spec fn cfg_sub_tids_unique(subs: Map<Tid, Term<Sub>>) -> bool {
+    forall |k1: Tid, k2: Tid| #[trigger] subs.contains_key(k1) && #[trigger] subs.contains_key(k2) && subs[k1].tid == subs[k2].tid ==> subs[k1] == subs[k2]
+}
+
+/// `t` is the tid of a function of the program that has a first block (a possible target of a direct call)
+pub open spec fn cfg_callable(subs: Map<Tid, Term<Sub>>, t: Tid) -> bool {
+    exists |k: Tid| #[trigger] subs.contains_key(k) && subs[k].tid == t && subs[k].term.blocks@.len() > 0
+}
+
+/// ... among the first `n` functions of the iteration `s`
+pub open spec fn cfg_callable_n(s: Seq<(&Tid, &Term<Sub>)>, n: int, t: Tid) -> bool {
+    exists |j: int| 0 <= j < n && (#[trigger] s[j]).1.tid == t && s[j].1.term.blocks@.len() > 0
+}
+
+/// the call_targets map after the first `n` functions of the iteration `s`
+pub open spec fn cfg_ct_partial<'a>(st0: CfgSt<'a>, ct: Map<Tid, (NodeIndex, NodeIndex)>, s: Seq<(&Tid, &Term<Sub>)>, n: int) -> bool {
+    &&& forall |t: Tid| #[trigger] ct.contains_key(t) <==> st0.ct.contains_key(t) || cfg_callable_n(s, n, t)
+    &&& forall |j: int| 0 <= j < n && (#[trigger] s[j]).1.term.blocks@.len() > 0 ==> ct[s[j].1.tid] == st0.jt[(s[j].1.term.blocks@[0].tid, s[j].1.tid)]
+    &&& forall |t: Tid| st0.ct.contains_key(t) && !cfg_callable_n(s, n, t) ==> #[trigger] ct[t] == st0.ct[t]
+}
+
+/// postcondition of add_subs_to_call_targets: ONLY call_targets changes; afterwards it maps the tid of every function
+/// that has a first block to the node pair registered for (first block, function), and is otherwise as before
+pub open spec fn cfg_call_targets_post<'a>(st0: CfgSt<'a>, st1: CfgSt<'a>, subs: Map<Tid, Term<Sub>>) -> bool {
+    &&& st1 == CfgSt { ct: st1.ct, ..st0 }
+    &&& forall |t: Tid| #[trigger] st1.ct.contains_key(t) <==> st0.ct.contains_key(t) || cfg_callable(subs, t)
+    &&& forall |k: Tid| #[trigger] subs.contains_key(k) && subs[k].term.blocks@.len() > 0 ==>
+            st1.ct[subs[k].tid] == st0.jt[(subs[k].term.blocks@[0].tid, subs[k].tid)]
+    &&& forall |t: Tid| st0.ct.contains_key(t) && !cfg_callable(subs, t) ==> #[trigger] st1.ct[t] == st0.ct[t]
+}
+
+/// WELL-FORMED NORMALIZED PROGRAM: every block of the program is (cfg_block_wf)
+pub open spec fn cfg_blocks_wf(subs: Map<Tid, Term<Sub>>) -> bool {
+    forall |b: Term<Blk>| #[trigger] cfg_prog_block(subs, b) ==> cfg_block_wf(subs, b)
+}
+
+/// one round of add_jump_and_call_edges: the LAST worklist entry is taken off, then add_outgoing_edges for that BlkEnd node
+/// and its block
+pub open spec fn cfg_wl_step<'a>(st: CfgSt<'a>, subs: Map<Tid, Term<Sub>>, ext: Set<Tid>) -> CfgSt<'a> {
+    let node = st.wl.last();
+    let st1 = CfgSt { wl: st.wl.drop_last(), ..st };
+    cfg_outgoing(st1, subs, ext, node, cfg_blk(st1.nodes[node.i as int]))
+}
+
+/// `n` rounds
+pub open spec fn cfg_wl_steps<'a>(st: CfgSt<'a>, subs: Map<Tid, Term<Sub>>, ext: Set<Tid>, n: int) -> CfgSt<'a>
+    decreases n
+{
+    if n <= 0 { st } else { cfg_wl_step(cfg_wl_steps(st, subs, ext, n - 1), subs, ext) }
+}
+
+/// `n` rounds are possible: the worklist is non-empty before each of them
+pub open spec fn cfg_wl_runs<'a>(st: CfgSt<'a>, subs: Map<Tid, Term<Sub>>, ext: Set<Tid>, n: int) -> bool {
+    0 <= n && forall |j: int| 0 <= j < n ==> (#[trigger] cfg_wl_steps(st, subs, ext, j)).wl.len() > 0
+}
+
+/// postcondition of add_jump_and_call_edges (when it returns): some number of rounds, after which the worklist is empty
+pub open spec fn cfg_worklist_post<'a>(st0: CfgSt<'a>, st1: CfgSt<'a>, subs: Map<Tid, Term<Sub>>, ext: Set<Tid>) -> bool {
+    exists |n: int| #[trigger] cfg_wl_runs(st0, subs, ext, n) && st1 == cfg_wl_steps(st0, subs, ext, n) && st1.wl.len() == 0
+}
+
+/// the jump list contains a return instruction
+pub open spec fn cfg_has_return_jmp(jmps: Seq<Term<Jmp>>) -> bool {
+    exists |j: int| 0 <= j < jmps.len() && (#[trigger] jmps[j]).term is Return
+}
+
+/// the BlkEnd nodes among the first `n` nodes whose block contains a return instruction, in index order
+pub open spec fn cfg_return_nodes<'a>(nodes: Seq<Node<'a>>, n: int) -> Seq<NodeIndex>
+    decreases n
+{
+    if n <= 0 { Seq::empty() } else {
+        let r = cfg_return_nodes(nodes, n - 1);
+        if nodes[n - 1] is BlkEnd && cfg_has_return_jmp(cfg_blk(nodes[n - 1]).term.jmps@) { r.push(cfg_ni(n - 1)) } else { r }
+    }
+}
+
+/// add_call_return_node_and_edges for the first `k` returning BlkEnd nodes of `list` (each with the function of its node)
+pub open spec fn cfg_returns_n<'a>(st: CfgSt<'a>, list: Seq<NodeIndex>, k: int) -> CfgSt<'a>
+    decreases k
+{
+    if k <= 0 { st } else {
+        cfg_call_return(cfg_returns_n(st, list, k - 1), cfg_sub(st.nodes[list[k - 1].i as int]), list[k - 1])
+    }
+}
+
+/// add_return_edges: for every BlkEnd node whose block contains a return instruction (found in the graph as it is when the
+/// function starts), the return linkage to every registered call site of its function
+pub open spec fn cfg_return_edges<'a>(st: CfgSt<'a>) -> CfgSt<'a> {
+    let list = cfg_return_nodes(st.nodes, st.nodes.len() as int);
+    cfg_returns_n(st, list, list.len() as int)
+}
+
+/// first loop of add_return_edges: the vector mirrors cfg_return_nodes
+pub open spec fn cfg_return_vec_ok<'a>(nodes: Seq<Node<'a>>, v: Seq<(NodeIndex, &'a Term<Sub>)>, n: int) -> bool {
+    &&& v.len() == cfg_return_nodes(nodes, n).len()
+    &&& forall |j: int| 0 <= j < v.len() ==> (#[trigger] v[j]).0 == cfg_return_nodes(nodes, n)[j]
+            && v[j].0.i < nodes.len() && nodes[v[j].0.i as int] is BlkEnd && v[j].1 == cfg_sub(nodes[v[j].0.i as int])
+}
+
+// ---- build -----------------------------------------------------------------------------------------------------------------
+
+/// WELL-FORMED PROGRAM: a tid identifies a block -- two blocks of the program with the same tid are the same block
+/// (a block listed in several functions is the same block in each)
+pub open spec fn cfg_blk_tids_unique(subs: Map<Tid, Term<Sub>>) -> bool {
+    forall |b1: Term<Blk>, b2: Term<Blk>| #[trigger] cfg_prog_block(subs, b1) && #[trigger] cfg_prog_block(subs, b2) && b1.tid == b2.tid ==> b1 == b2
+}
+
+/// THE PRECONDITION "well-formed normalized program" of build / get_program_cfg:
+///   tids identify functions and blocks; every block ends with at most two jumps; every block tid named by a jump (target,
+///   return target of a call, indirect-jump target hint) is the tid of a block of the program
+pub open spec fn cfg_prog_wf(subs: Map<Tid, Term<Sub>>) -> bool {
+    &&& cfg_sub_tids_unique(subs)
+    &&& cfg_blk_tids_unique(subs)
+    &&& cfg_blocks_wf(subs)
+}
+
+/// the construction `build` performs, as a chain of the step functions: `st` is what results from
+///   add_program_blocks (functions in the order ks) on the empty builder,
+///   add_subs_to_call_targets (state s2),
+///   `n` rounds of the worklist loop after which the worklist is empty,
+///   add_return_edges
+pub open spec fn cfg_build_steps<'a>(ks: Seq<Tid>, s2: CfgSt<'a>, n: int, st: CfgSt<'a>, subs: Map<Tid, Term<Sub>>, ext: Set<Tid>) -> bool {
+    &&& cfg_key_order(ks, subs)
+    &&& cfg_call_targets_post(cfg_prog_blocks_n(cfg_empty(), subs, ks, ks.len() as int), s2, subs)
+    &&& cfg_wl_runs(s2, subs, ext, n)
+    &&& cfg_wl_steps(s2, subs, ext, n).wl.len() == 0
+    &&& st == cfg_return_edges(cfg_wl_steps(s2, subs, ext, n))
+}
+
+pub open spec fn cfg_build_post<'a>(st: CfgSt<'a>, subs: Map<Tid, Term<Sub>>, ext: Set<Tid>) -> bool {
+    exists |ks: Seq<Tid>, s2: CfgSt<'a>, n: int| #[trigger] cfg_build_steps(ks, s2, n, st, subs, ext)
+}
+
+/// the graph `g` is the graph of the abstract state `st` (same node weights in the same order, same edges with the same
+/// labels in the same order)
+pub open spec fn cfg_graph_of<'a>(g: Graph<'a>, st: CfgSt<'a>) -> bool {
+    cfg_nodes(g) =~= st.nodes && cfg_edges(g) =~= st.edges
+}
+
+/// THE POSTCONDITION of build / get_program_cfg_with_logs / get_program_cfg
+pub open spec fn cfg_built<'a>(g: Graph<'a>, subs: Map<Tid, Term<Sub>>, ext: Set<Tid>) -> bool {
+    exists |st: CfgSt<'a>| #[trigger] cfg_build_post(st, subs, ext) && cfg_graph_of(g, st)
+}
+
+// ---- get_entry_nodes_of_subs ----------------------------------------------------------------------------------------------------
+
+/// node `n` is a BlkStart node of the first block (by tid) of a function with tid `t`
+pub open spec fn cfg_entry_node<'a>(nodes: Seq<Node<'a>>, n: int, t: Tid) -> bool {
+    &&& 0 <= n < nodes.len()
+    &&& nodes[n] is BlkStart
+    &&& cfg_sub(nodes[n]).tid == t
+    &&& cfg_sub(nodes[n]).term.blocks@.len() > 0
+    &&& cfg_blk(nodes[n]).tid == cfg_sub(nodes[n]).term.blocks@[0].tid
+}
+
+/// the map after the first `m` nodes: the tids that have an entry node among them, each mapped to the LAST such node
+pub open spec fn cfg_entry_map_n<'a>(nodes: Seq<Node<'a>>, r: Map<Tid, NodeIndex>, m: int) -> bool {
+    &&& forall |t: Tid| #[trigger] r.contains_key(t) <==> exists |n: int| n < m && #[trigger] cfg_entry_node(nodes, n, t)
+    &&& forall |t: Tid| #[trigger] r.contains_key(t) ==> r[t].i < m && cfg_entry_node(nodes, r[t].i as int, t)
+            && forall |n: int| r[t].i < n < m ==> !#[trigger] cfg_entry_node(nodes, n, t)
+}
+
+// ---- STAGE 3: global invariants over the whole construction ---------------------------------------------------------------------
+
+/// the key a BlkStart / BlkEnd node is registered under
+pub open spec fn cfg_key_of<'a>(w: Node<'a>) -> (Tid, Tid) { (cfg_blk(w).tid, cfg_sub(w).tid) }
+
+/// GLOBAL INVARIANT "one start node, one end node and one block edge per (block, function) pair":
+///   every BlkStart node n is directly followed by the BlkEnd node of the same block and function, and (n, n+1) is THE pair
+///   registered under its key (so two different BlkStart nodes have different keys);
+///   every BlkEnd node directly follows such a BlkStart node;
+///   every Block edge leads from a BlkStart node n to n+1, no two Block edges leave the same node, every BlkStart node has one
+pub open spec fn cfg_pairs_inv<'a>(st: CfgSt<'a>) -> bool {
+    &&& forall |n: int| 0 <= n < st.nodes.len() && (#[trigger] st.nodes[n]) is BlkStart ==>
+            n + 1 < st.nodes.len() && st.nodes[n + 1] == Node::BlkEnd(cfg_blk(st.nodes[n]), cfg_sub(st.nodes[n]))
+            && st.jt.contains_key(cfg_key_of(st.nodes[n])) && st.jt[cfg_key_of(st.nodes[n])] == (cfg_ni(n), cfg_ni(n + 1))
+    &&& forall |n: int| 0 <= n < st.nodes.len() && (#[trigger] st.nodes[n]) is BlkEnd ==> n >= 1 && st.nodes[n - 1] is BlkStart
+    &&& forall |e: int| 0 <= e < st.edges.len() && (#[trigger] st.edges[e]).w is Block ==>
+            st.edges[e].src.i < st.nodes.len() && st.nodes[st.edges[e].src.i as int] is BlkStart && st.edges[e].dst.i == st.edges[e].src.i + 1
+    &&& forall |e1: int, e2: int| 0 <= e1 < e2 < st.edges.len() && (#[trigger] st.edges[e1]).w is Block && (#[trigger] st.edges[e2]).w is Block ==>
+            st.edges[e1].src != st.edges[e2].src
+    &&& forall |n: int| 0 <= n < st.nodes.len() && (#[trigger] st.nodes[n]) is BlkStart ==>
+            exists |e: int| 0 <= e < st.edges.len() && #[trigger] st.edges[e] == (CfgEdge { src: cfg_ni(n), dst: cfg_ni(n + 1), w: Edge::Block })
+}
+
+/// worklist part of "the builder only grew": the old entries stay, the new entries are exactly the new BlkEnd nodes, each once
+pub open spec fn cfg_wl_grows<'a>(a: CfgSt<'a>, b: CfgSt<'a>) -> bool {
+    &&& a.wl.len() <= b.wl.len()
+    &&& forall |i: int| 0 <= i < a.wl.len() ==> #[trigger] b.wl[i] == a.wl[i]
+    &&& forall |i: int| a.wl.len() <= i < b.wl.len() ==> a.nodes.len() <= (#[trigger] b.wl[i]).i < b.nodes.len() && b.nodes[b.wl[i].i as int] is BlkEnd
+    &&& forall |i: int, j: int| a.wl.len() <= i < j < b.wl.len() ==> #[trigger] b.wl[i] != #[trigger] b.wl[j]
+    &&& forall |n: int| a.nodes.len() <= n < b.nodes.len() && (#[trigger] b.nodes[n]) is BlkEnd ==>
+            exists |i: int| a.wl.len() <= i < b.wl.len() && (#[trigger] b.wl[i]).i == n
+}
+
+/// "the builder only grew from a to b" (reflexive, transitive): nodes and edges are extended at the end, registered pairs and
+/// call targets keep their node pairs, registered return addresses stay (lists are extended at the end), and cfg_wl_grows
+pub open spec fn cfg_gstep<'a>(a: CfgSt<'a>, b: CfgSt<'a>) -> bool {
+    &&& a.nodes.len() <= b.nodes.len()
+    &&& forall |i: int| 0 <= i < a.nodes.len() ==> #[trigger] b.nodes[i] == a.nodes[i]
+    &&& a.edges.len() <= b.edges.len()
+    &&& forall |i: int| 0 <= i < a.edges.len() ==> #[trigger] b.edges[i] == a.edges[i]
+    &&& forall |k: (Tid, Tid)| #[trigger] a.jt.contains_key(k) ==> b.jt.contains_key(k) && b.jt[k] == a.jt[k]
+    &&& b.ct == a.ct
+    &&& forall |t: Tid| #[trigger] a.ra.contains_key(t) ==> b.ra.contains_key(t) && a.ra[t].len() <= b.ra[t].len()
+            && forall |i: int| 0 <= i < a.ra[t].len() ==> #[trigger] b.ra[t][i] == a.ra[t][i]
+    &&& cfg_wl_grows(a, b)
+}
+
+/// worklist accounting: every BlkEnd node is EITHER waiting on the worklist OR among the processed nodes `done`, exactly once
+pub open spec fn cfg_accounted<'a>(st: CfgSt<'a>, done: Seq<NodeIndex>) -> bool {
+    &&& forall |i: int| 0 <= i < done.len() ==> (#[trigger] done[i]).i < st.nodes.len() && st.nodes[done[i].i as int] is BlkEnd
+    &&& forall |i: int| 0 <= i < st.wl.len() ==> (#[trigger] st.wl[i]).i < st.nodes.len() && st.nodes[st.wl[i].i as int] is BlkEnd
+    &&& forall |i: int, j: int| 0 <= i < j < done.len() ==> #[trigger] done[i] != #[trigger] done[j]
+    &&& forall |i: int, j: int| 0 <= i < j < st.wl.len() ==> #[trigger] st.wl[i] != #[trigger] st.wl[j]
+    &&& forall |i: int, j: int| 0 <= i < st.wl.len() && 0 <= j < done.len() ==> #[trigger] st.wl[i] != #[trigger] done[j]
+    &&& forall |n: int| 0 <= n < st.nodes.len() && (#[trigger] st.nodes[n]) is BlkEnd ==>
+            (exists |i: int| 0 <= i < st.wl.len() && (#[trigger] st.wl[i]).i == n) || (exists |j: int| 0 <= j < done.len() && (#[trigger] done[j]).i == n)
+}
+
+/// the BlkEnd nodes processed in the first `n` rounds of the worklist loop started in `st`, in order
+pub open spec fn cfg_done_n<'a>(st: CfgSt<'a>, subs: Map<Tid, Term<Sub>>, ext: Set<Tid>, n: int) -> Seq<NodeIndex> {
+    Seq::new(n as nat, |j: int| cfg_wl_steps(st, subs, ext, j).wl.last())
+}
+
+/// WELL-FORMED PROGRAM (stage 3): the (block tid, function tid) keys of the positions "block i of the function stored
+/// under k" are pairwise different (no block is listed twice in a function, no two functions share a tid)
+pub open spec fn cfg_positions_unique(subs: Map<Tid, Term<Sub>>) -> bool {
+    forall |k1: Tid, i1: int, k2: Tid, i2: int|
+        #[trigger] cfg_block_at(subs, k1, i1, subs[k1].term.blocks@[i1]) && #[trigger] cfg_block_at(subs, k2, i2, subs[k2].term.blocks@[i2])
+        && subs[k1].term.blocks@[i1].tid == subs[k2].term.blocks@[i2].tid && subs[k1].tid == subs[k2].tid
+        ==> k1 == k2 && i1 == i2
 }
